@@ -464,6 +464,8 @@ def e_invalid():
         yield st([dw(['Clone']), Attr('dw', opt(MNameValue('crate', kindv, PA('foo'))))])
         yield st([Attr('dw', opt(MNameValue('crate', kindv, PA('foo::bar', 1)))), dw(['Clone'])])
         yield st([dw(['Clone']), Attr('dw', opt(MNameValue('crate', kindv, PA('::derive_where'))))])
+        yield st([dw(['Clone']), Attr('dw', opt(MNameValue('crate', kindv, PA('foo', ty=''))))])       # `foo::<>`
+        yield st([Attr('dw', opt(MNameValue('crate', kindv, PA('foo::bar', 1, ty='')))), dw(['Clone'])])
     yield st([dw(['Clone'])], [], 'struct', 'tuple')
     yield st([dw(['Clone'])], [], 'struct', 'named')
     yield st([dw(['Clone'])], [], 'struct', 'unit')
